@@ -91,6 +91,84 @@ PlainSym(a) == [u |-> <<<<a>>>>, lo |-> 1, hi |-> 1, nest |-> <<>>]
 PlainCluster(w) == [i \in DOMAIN w |-> PlainSym(w[i])]
 
 (***************************************************************************)
+(* S5  src/cluster.rs convert_repetitions: greedy detection of repeated    *)
+(* substrings, transcribed function by function.  Positions are 0-based    *)
+(* and ranges half-open as in the code.  A grapheme's identity is its      *)
+(* value (here: the field u).                                              *)
+(***************************************************************************)
+Vals(gs) == [i \in DOMAIN gs |-> gs[i].u]
+
+(* collect_repeated_substrings: every substring of length <= n/2 with all its start positions *)
+RepKeys(vals) ==
+  LET n == Len(vals) IN
+  {SubSeq(vals, p[1], p[1] + p[2] - 1) : p \in {q \in (1 .. n) \X (1 .. (n \div 2)) : q[1] + q[2] - 1 <= n}}
+Occs(vals, k) ==
+  SortSeq(SetToSeq({i - 1 : i \in {x \in 1 .. (Len(vals) - Len(k) + 1) : SubSeq(vals, x, x + Len(k) - 1) = k}}), <)
+NonOverlapping(occ, len) == \A i \in 1 .. Len(occ) - 1 : occ[i + 1] - occ[i] >= len
+
+(* adjacent occurrences are merged into one range *)
+RECURSIVE MergeAdjacent(_, _, _)
+MergeAdjacent(occ, len, acc) ==    \* acc: ranges so far, last one still open
+  IF occ = <<>> THEN acc
+  ELSE LET s == Head(occ) IN
+       IF acc # <<>> /\ acc[Len(acc)][2] = s
+       THEN MergeAdjacent(Tail(occ), len, [acc EXCEPT ![Len(acc)] = <<@[1], s + len>>])
+       ELSE MergeAdjacent(Tail(occ), len, Append(acc, <<s, s + len>>))
+
+(* create_ranges_of_repetitions: longest substrings first, then by first occurrence *)
+KeyLess(vals, a, b) == IF Len(a) # Len(b) THEN Len(a) > Len(b) ELSE Occs(vals, a)[1] < Occs(vals, b)[1]
+RECURSIVE RangesOfKeys(_, _, _)
+RangesOfKeys(vals, keys, minrep) ==
+  IF keys = <<>> THEN <<>>
+  ELSE LET k == Head(keys)
+           rs == MergeAdjacent(Occs(vals, k), Len(k), <<>>)
+           keep == SelectSeq(rs, LAMBDA r : (r[2] - r[1]) \div Len(k) > minrep)
+       IN [i \in DOMAIN keep |-> [s |-> keep[i][1], e |-> keep[i][2], k |-> k]] \o RangesOfKeys(vals, Tail(keys), minrep)
+CreateRanges(vals, minrep) ==
+  LET valid == {k \in RepKeys(vals) : NonOverlapping(Occs(vals, k), Len(k))}
+  IN RangesOfKeys(vals, SortSeq(SetToSeq(valid), LAMBDA a, b : KeyLess(vals, a, b)), minrep)
+
+(* coalesce_repetitions: stable sort by (end descending, start ascending), then drop a range that *)
+(* starts or ends inside the kept one (unless it ends exactly where the kept one starts)           *)
+RECURSIVE InsertRange(_, _)
+InsertRange(sorted, r) ==     \* stable insertion: r goes after all elements not greater than it
+  IF sorted = <<>> THEN <<r>>
+  ELSE LET h == Head(sorted) IN
+       IF h.e > r.e \/ (h.e = r.e /\ h.s <= r.s) THEN <<h>> \o InsertRange(Tail(sorted), r)
+       ELSE <<r>> \o sorted
+RECURSIVE SortRanges(_)
+SortRanges(rs) == IF rs = <<>> THEN <<>> ELSE InsertRange(SortRanges(Front(rs)), Last(rs))
+InRange(r, x) == r.s <= x /\ x < r.e
+RECURSIVE CoalesceFrom(_, _)
+CoalesceFrom(cur, rest) ==
+  IF rest = <<>> THEN <<cur>>
+  ELSE LET nx == Head(rest) IN
+       IF (InRange(cur, nx.s) \/ InRange(cur, nx.e)) /\ nx.e # cur.s
+       THEN CoalesceFrom(cur, Tail(rest))
+       ELSE <<cur>> \o CoalesceFrom(nx, Tail(rest))
+Coalesce(rs) == LET sr == SortRanges(rs) IN IF sr = <<>> THEN <<>> ELSE CoalesceFrom(Head(sr), Tail(sr))
+
+RECURSIVE ConvertReps(_, _, _), Splice(_, _, _, _, _)
+(* replace_graphemes_with_repetitions *)
+Splice(reps, ranges, minrep, minsub, fuel) ==
+  IF ranges = <<>> THEN reps
+  ELSE LET r == Head(ranges) IN
+       IF r.e > Len(reps) THEN reps                                  \* break
+       ELSE IF Len(r.k) < minsub THEN Splice(reps, Tail(ranges), minrep, minsub, fuel)
+       ELSE LET count == (r.e - r.s) \div Len(r.k)
+                unit == [i \in DOMAIN r.k |-> [u |-> r.k[i], lo |-> 1, hi |-> 1, nest |-> <<>>]]
+                inner == IF fuel = 0 THEN [changed |-> FALSE, gs |-> unit] ELSE ConvertReps(unit, [minrep |-> minrep, minsub |-> minsub], fuel - 1)
+                flat == LET RECURSIVE Cat(_) Cat(xs) == IF xs = <<>> THEN <<>> ELSE Head(xs) \o Cat(Tail(xs)) IN Cat(r.k)
+                g == [u |-> flat, lo |-> count, hi |-> count, nest |-> IF inner.changed THEN inner.gs ELSE <<>>]
+            IN Splice(SubSeq(reps, 1, r.s) \o <<g>> \o SubSeq(reps, r.e + 1, Len(reps)), Tail(ranges), minrep, minsub, fuel)
+(* convert_repetitions: [changed, gs] *)
+ConvertReps(gs, c, fuel) ==
+  LET co == Coalesce(CreateRanges(Vals(gs), c.minrep)) IN
+  IF co = <<>> THEN [changed |-> FALSE, gs |-> gs]
+  ELSE [changed |-> TRUE, gs |-> Splice(gs, co, c.minrep, c.minsub, fuel)]
+RepConvert(cluster, c) == ConvertReps(cluster, c, 4).gs
+
+(***************************************************************************)
 (* S7  src/dfa.rs minimize: Hopcroft's refinement exactly as coded - the   *)
 (* partition is a SEQUENCE of sets (its order decides the numbering of the *)
 (* minimised states), the work list a queue, labels match on               *)
